@@ -153,6 +153,49 @@ theorem C01_nonvacuous :
             [(PATH, [.own (nC, v2) [1], .own (nB, v1) [1], .own (nA, v1) [1]])], []⟩ := by
   decide +kernel
 
+/-! ## clause 5 (closure): the two halves that are theorems
+
+The full clause (the set of products set up is *exactly* the dependency closure, each at its designated version, when no
+product is requested in two versions) is evaluated on the implementation by oracle (ii); what is proved: nothing outside
+the closure is set up, and the requested product is set up in the version resolution designates. -/
+
+/-- from an environment with nothing set up, every product set up after a successful request is reachable from the
+requested product through dependency lines — every database, every flag, every fuel -/
+theorem C01_closure_sound (db : Db) (fuel : Nat) (r : Request) (e : Setup.Env) (s' : St)
+    (hclean : ∀ n, e.rec? n = none) (h : runSetup db fuel r e = .ok s') :
+    ∀ m v, s'.env.rec? m = some v → ∃ k, Within db r.name k m := by
+  intro m v hm
+  apply Classical.byContradiction
+  intro hno
+  have hsame := setup_subjInv (r.cfg db) (fun _ n => ∃ k, Within db r.name k n) (SameFor m e)
+    (within_closedAt_unbounded (r.cfg db) r.name)
+    (sameFor_subjInv (r.cfg db) _ m (fun _ h => hno h) e) fuel true 0 false r.vro r.name r.version none (St.init e) s'
+    ⟨0, Within.root⟩ (by intro n d x h; simp [St.init, aget] at h) (SameFor.refl m e) h
+  rw [hsame.record, hclean m] at hm
+  cases hm
+
+/-- the requested product is set up in the version the resolution order designates for the request (resolution run on
+an empty `alreadySetupProducts`, as the top-level call does) — under `NameDag` -/
+theorem C01_requested_version_partial (db : Db) (rank : Name → Nat) (hdag : NameDag db rank) (fuel : Nat)
+    (r : Request) (e : Setup.Env) (s' : St) (h : runSetup db fuel r e = .ok s') :
+    ∃ d reason, resolve db r.keep [] r.name r.version none 0 r.vro.length r.vro = .found d reason ∧
+      s'.env.rec? r.name = some d.ver := by
+  unfold runSetup at h
+  cases fuel with
+  | zero => simp [setup_zero] at h
+  | succ k =>
+    rw [setup_succ_true] at h
+    have ha0 : AlreadyOK (r.cfg db).db (St.init e).already := by intro n d x h; simp [St.init, aget] at h
+    cases hres : resolve (r.cfg db).db (r.cfg db).keep (St.init e).already r.name r.version none 0 r.vro.length r.vro with
+    | none => rw [hres] at h; cases h
+    | error => rw [hres] at h; cases h
+    | found d reason =>
+      rw [hres] at h
+      obtain ⟨hc, hname⟩ := resolve_spec _ _ _ ha0 _ _ _ _ _ _ _ _ hres
+      have := install_top_record (r.cfg db) rank hdag (setup (r.cfg db) k) (setup_recOK (r.cfg db) rank hdag k)
+        false r.vro d reason hc _ s' (register_already (r.cfg db) 0 d reason (St.init e) ha0 hc) h
+      exact ⟨d, reason, hres, by rw [← hname]; exact this⟩
+
 /-! ## the hypotheses are satisfiable: the diamond database is a `NameDag`, the empty environment is `EnvOK` -/
 
 def rankDiamond (n : Name) : Nat := if n = nTop then 3 else if n = nA ∨ n = nB then 2 else if n = nC then 1 else 0
